@@ -152,7 +152,12 @@ void case_fd(uint64_t idx, vh::Rng& rng) {
         iou::ReadResult p;
         { osmium::io::File pf{plain.data(), plain.size(), f.fmt}; p = iou::read_all(pf, osmium::osm_entity_bits::all, *g_pool); }
         std::string detail;
-        const std::string d = compare(p, a, false, &detail);
+        std::string d = compare(p, a, false, &detail);
+        auto relabel = [](std::string& t) {
+            for (const auto& r : {std::pair<std::string, std::string>{"fd with short reads", "the multi-member buffer"}, {"memory", "the uncompressed bytes"}, {"fd", "multi-member buffer"}})
+                for (size_t pos = t.find(r.first); pos != std::string::npos; pos = t.find(r.first, pos + r.second.size())) t.replace(pos, r.first.size(), r.second);
+        };
+        relabel(d); relabel(detail);
         if (!d.empty()) vh::violation(std::string(f.fmt) + (comp == 1 ? " (gzip buffer, several members)" : " (bzip2 buffer, several streams)") + ": " + d, what + ": " + detail);
         vh::count("multi_member_buffer_runs");
     }
